@@ -25,8 +25,6 @@ EntC(e) == <<e[2], e[3], e[4]>>
 RecOf(S) == [c \in {EntC(e) : e \in S} |-> (CHOOSE e \in S : EntC(e) = c)[1]]
 Functional(S) == \A e1 \in S, e2 \in S : EntC(e1) = EntC(e2) => e1 = e2
 Injective(S) == \A e1 \in S, e2 \in S : e1[1] = e2[1] => e1 = e2
-\* children are recorded, older nodes
-DagOK(S) == \A e \in S : \A i \in DOMAIN e[3] : e[3][i] < e[1] /\ \E f \in S : f[1] = e[3][i]
 
 \* ---- start: the two Boolean constants exist (their ids are the environment's choice)
 InitEntries == ToSet(Traces[tid].init)
@@ -40,41 +38,40 @@ TraceInit ==
    /\ IF InitOK THEN InitWith(RecOf(InitEntries)[TrueC], RecOf(InitEntries)[FalseC]) /\ bad = {}
       ELSE Init /\ bad = {<<"init-bool-constants", 0>>}
 
-\* ---- clauses violated by the record o of one call; R = the specification's outcome
-Clauses(o, R) ==
+\* ---- clauses violated by the record o of one call
+\* R = the specification's outcome, atoms = the call's arguments as specification atoms
+Clauses(o, R, atoms) ==
    LET A == ToSet(o.add)
        Exp == EntriesOf(R.T) \ EntriesOf(table)
        extra == A \ Exp
        missing == {e \in Exp : \A f \in A : EntC(f) # EntC(e)}
        okI == o.r[1] = "ok"
-       Obs == EntriesOf(table) \cup A
-       obsWF == Functional(Obs) /\ Injective(Obs) /\ DagOK(Obs)
-       atomsOK == \A i \in DOMAIN o.a : o.a[i][1] = "r" => \E f \in Obs : f[1] = resid[o.a[i][2]]
-       ObsT == RecOf(Obs)
-       ObsAtom(a) == IF a[1] = "r" THEN TermOf(ObsT, resid[a[2]]) ELSE AtomTerm(ObsT, a)
-   IN (IF o.del # <<>> THEN {"table-keeps-entries"} ELSE {})
-      \cup (IF extra = {} THEN {}
-            ELSE IF ~R.ok /\ \E e \in extra : EntC(e) = R.c THEN {"reject-leaves-table-unchanged"}
-            ELSE {"table-extra-node"})
-      \cup (IF missing # {} THEN {"table-missing-node"} ELSE {})
-      \cup (IF \E e \in A : e[1] < nextId \/ e[1] \in IdsOf(table) THEN {"new-ids-fresh"} ELSE {})
-      \cup (IF ~Injective(A) THEN {"new-ids-distinct"} ELSE {})
-      \cup (IF ~Functional(A) \/ \E e \in A : EntC(e) \in DOMAIN table THEN {"same-content-same-id"} ELSE {})
-      \cup (IF o.n - cnt # Len(o.add) - Len(o.del) THEN {"table-count"} ELSE {})
-      \cup (IF R.ok /\ ~okI THEN {"accepts-well-typed"} ELSE {})
-      \cup (IF ~R.ok /\ okI THEN (IF R.c \in rejected THEN {"reject-repeatable"} ELSE {"rejects-ill-typed"}) ELSE {})
-      \cup (IF R.ok /\ okI /\ o.r[2] # R.res
-            THEN (IF R.res \in IdsOf(table) THEN {"same-content-same-node"} ELSE {"result-is-interned-node"}) ELSE {})
-      \cup (IF R.ok /\ okI /\ <<o.r[4], o.r[5], o.r[6]>> # NodeOf(R.T, R.res) THEN {"result-content-normal-form"} ELSE {})
-      \* declarative layer on the recorded values: the returned node denotes NormTerm(call)
-      \cup (IF R.ok /\ okI /\ obsWF /\ atomsOK /\ (\E f \in Obs : f[1] = o.r[2])
-            THEN (IF TermOf(ObsT, o.r[2]) # NormTerm(o.k, [i \in DOMAIN o.a |-> ObsAtom(o.a[i])])
-                  THEN {"spec-normal-term"} ELSE {})
-            ELSE {})
-      \* identical node: one Python object per id and one id per object
-      \cup (IF okI /\ ((o.r[2] \in DOMAIN seen /\ seen[o.r[2]] # o.r[3])
-                       \/ (o.r[2] \notin DOMAIN seen /\ o.r[3] \in IdsOf(seen)))
-            THEN {"identical-object"} ELSE {})
+       tableC ==
+          (IF o.del # <<>> THEN {"table-keeps-entries"} ELSE {})
+          \cup (IF extra = {} THEN {}
+                ELSE IF ~R.ok /\ \E e \in extra : EntC(e) = R.c THEN {"reject-leaves-table-unchanged"}
+                ELSE {"table-extra-node"})
+          \cup (IF missing # {} THEN {"table-missing-node"} ELSE {})
+          \cup (IF \E e \in A : e[1] < nextId \/ e[1] \in IdsOf(table) THEN {"new-ids-fresh"} ELSE {})
+          \cup (IF ~Injective(A) THEN {"new-ids-distinct"} ELSE {})
+          \cup (IF ~Functional(A) \/ \E e \in A : EntC(e) \in DOMAIN table THEN {"same-content-same-id"} ELSE {})
+          \cup (IF o.n - cnt # Len(o.add) - Len(o.del) THEN {"table-count"} ELSE {})
+       resultC ==
+          (IF R.ok /\ ~okI THEN {"accepts-well-typed"} ELSE {})
+          \cup (IF ~R.ok /\ okI THEN (IF R.c \in rejected THEN {"reject-repeatable"} ELSE {"rejects-ill-typed"}) ELSE {})
+          \cup (IF R.ok /\ okI /\ o.r[2] # R.res
+                THEN (IF R.res \in IdsOf(table) THEN {"same-content-same-node"} ELSE {"result-is-interned-node"}) ELSE {})
+          \cup (IF R.ok /\ okI /\ <<o.r[4], o.r[5], o.r[6]>> # NodeOf(R.T, R.res) THEN {"result-content-normal-form"} ELSE {})
+          \* identical node: one Python object per id and one id per object
+          \cup (IF okI /\ ((o.r[2] \in DOMAIN seen /\ seen[o.r[2]] # o.r[3])
+                           \/ (o.r[2] \notin DOMAIN seen /\ o.r[3] \in IdsOf(seen)))
+                THEN {"identical-object"} ELSE {})
+       \* declarative layer: when the record agrees with the id-level outcome, the recorded table is R.T and
+       \* the node returned must denote the documented normal form of the call on TERMS
+       termC == IF tableC = {} /\ resultC = {} /\ R.ok
+                   /\ TermOf(R.T, o.r[2]) # NormTerm(o.k, [i \in DOMAIN atoms |-> AtomTerm(R.T, atoms[i])])
+                THEN {"spec-normal-term"} ELSE {}
+   IN tableC \cup resultC \cup termC
 
 CallStep ==
    /\ l <= Len(Traces[tid].ops)
@@ -92,7 +89,7 @@ CallStep ==
                   Rec == IF Functional(A) /\ Injective(A) /\ \A e \in A : e[1] >= nextId THEN RecOf(A) ELSE NoRec
                   R == Apply(table, nextId, o.k, atoms, Rec)
               IN /\ IF R.ok THEN Mk(o.k, atoms, Rec) ELSE MkReject(o.k, atoms, Rec, 0)
-                 /\ bad' = bad \cup {<<c, l>> : c \in Clauses(o, R)}
+                 /\ bad' = bad \cup {<<c, l>> : c \in Clauses(o, R, atoms)}
                  /\ resid' = Append(resid, IF R.ok /\ o.r[1] = "ok" /\ o.r[2] \in IdsOf(R.T) THEN o.r[2] ELSE 0)
                  /\ seen' = IF o.r[1] = "ok" /\ o.r[2] \notin DOMAIN seen THEN seen @@ (o.r[2] :> o.r[3]) ELSE seen
                  /\ rejected' = IF R.ok THEN rejected ELSE rejected \cup {R.c}
